@@ -26,13 +26,10 @@ impl Axecutor {
     fn instr_setb_rm8(&mut self, i: Instruction) -> Result<(), AxError> {
         debug_assert_eq!(i.code(), Setb_rm8);
 
-        if self.state.rflags & FLAG_CF != 0 {
-            calculate_rm![u8f; self; i; |_: u8| {
-                (1, 0)
-            }; (set: FLAGS_UNAFFECTED; clear: 0)]
-        } else {
-            Ok(())
-        }
+        let value = u8::from(self.state.rflags & FLAG_CF != 0);
+        calculate_rm![u8f; self; i; |_: u8| {
+            (value, 0)
+        }; (set: FLAGS_UNAFFECTED; clear: 0)]
     }
 }
 
